@@ -66,8 +66,11 @@ def exc_is(E, exc, ref):
 
 
 def new_obj(E, ref, **attrs):
+    """Pre-state shape of an instance: exactly the given attributes are set (no __init__ is run)."""
     cls = E.lookup(ref) if isinstance(ref, str) else ref
-    return SObj(cls, dict(attrs))
+    o = SObj(cls, dict(attrs))
+    o.is_shape = True       # see Engine.getattr: reading an attribute every __init__ sets but the shape lacks is a
+    return o                # stale contract (undecided), not an AttributeError of the code
 
 
 def instantiate_forall(q, *witness):
